@@ -29,12 +29,18 @@ func queueTerm(q qspec, qid *ids) string {
 }
 
 func otaskTerm(id int, t *pod_info.PodInfo, nodeMem int64, gate string, charge *[3]float64) string {
+	return otaskTermTried(id, t, nodeMem, gate, charge, "[]")
+}
+
+// otaskTermTried: tried = the candidate nodes the allocation attempt passed over before the node the task was
+// placed on, as a Coq list of (MemoryOfEveryGpuOnNode, verdict of the live session's node-level gate there).
+func otaskTermTried(id int, t *pod_info.PodInfo, nodeMem int64, gate string, charge *[3]float64, tried string) string {
 	ch := "None"
 	if charge != nil {
 		ch = u.Opt(true, rqTerm(*charge))
 	}
-	return fmt.Sprintf("{| ot_task := %s; ot_nm := %s; ot_gate := %s; ot_charge := %s |}",
-		taskTerm(id, t), u.Pos(int(nodeMem)), gate, ch)
+	return fmt.Sprintf("{| ot_task := %s; ot_nm := %s; ot_gate := %s; ot_charge := %s; ot_tried := %s |}",
+		taskTerm(id, t), u.Pos(int(nodeMem)), gate, ch, tried)
 }
 
 type stepObs struct {
@@ -1036,6 +1042,18 @@ func Run(dir string, seed uint64, n int, tier string) error {
 		}
 		return nil
 	}
+	if tier == "hetero-demo" { // the fixed worlds of hetero.go, then n generated ones: what the real actions did
+		cs := heteroCorpus()
+		for i := 0; i < n; i++ {
+			cs = append(cs, genHetero(u.NewRng(seed).Fork(uint64(8000000+i))))
+		}
+		for _, c := range cs {
+			o := runActionCase(c)
+			fmt.Println(o.Label)
+			fmt.Printf("  counts: %v\n", o.Counts)
+		}
+		return nil
+	}
 	if tier == "witness" {
 		for _, c := range []seqCase{mixedWitnessCase(), witnessCase()} {
 			term, label, trace, counts, _ := runSeq(c)
@@ -1046,6 +1064,14 @@ func Run(dir string, seed uint64, n int, tier string) error {
 	}
 	out := u.NewOut(dir, "C08", "KaiV.Run.C08", "case", 50)
 	root := u.NewRng(seed)
+	if tier == "hetero-only" { // search aid: n sessions on clusters mixing GPU models, nothing else
+		cs := heteroCorpus()
+		for i := 0; i < n; i++ {
+			cs = append(cs, genHetero(root.Fork(uint64(8000000+i))))
+		}
+		emitActions(out, cs)
+		return out.Flush()
+	}
 	type seqResult struct {
 		c      seqCase
 		term   string
@@ -1180,6 +1206,7 @@ func Run(dir string, seed uint64, n int, tier string) error {
 		"SNAPSHOT of every session (all sequences, every cycle of every history, the corpus): at least one pod in EACH of the 11 situations a queue's pod can be in when the snapshot is taken -- pending, gated, allocated (set by hand: getTaskStatus never returns it), binding (pending pod + BindRequest in flight), bound (nodeName, phase Pending), running, releasing on a node, releasing without node, succeeded, failed, unknown -- built by v1.Pod + BindRequest -> pod_info.NewTaskInfoWithBindRequest -> NodeInfo.AddTasksToNode; generated sessions: the 11 states in random order plus 0-3 more (binding/bound/running/allocated/pending/releasing) dealt over jobs of 1-3 pods, queue (deep ones preferred: depth 1/2/3 about 35/25/40%), preemptibility (50/50) and requests drawn per job, i.e. per quick run roughly 2600 pods in each state, each state with both preemptibilities and all three depths (snapshot-pod:<state>[:preemptible=..|:queue-depth=..] counts); three quarters of the finite caps are moved up by what the snapshot holds below them so that admissions and refusals keep their share (about 30% of the admit steps are admitted); corpus sessions carry the 11 states in an extra unlimited root queue. " +
 		"LATER CYCLES: the snapshot is derived from the pods as the previous session left them: pods whose bind was sent (Binding) are seen as binding (bind request still in flight; 1/3 of the histories), bound, running (the control), or per pod one of the three (mixed, 1/3); pods allocated but never committed or whose bind failed are pending again, evicted pods terminating or gone, running pods sometimes finished; jobs that are entirely pending again after a refusal are retried first (<= 3), then 2-5 decisions on new jobs. " +
 		"STEPS: 4-9 probe/admit/release decisions through the real session (proportion plugin's gates and handlers, one Statement per job: Allocate/Rollback, Evict; releases also hit snapshot pods in every holding status); in 2/3 of the single-cycle sequences and in all histories an admitted job is committed right away through the real Statement.Commit against a cache whose Bind fails for one chosen task (first / middle / last task of the job) or for none; after session open and after every step the plugin's per-queue Allocated and, independently, the set of pods whose status holds resources (Allocated/Pipelined/Binding/Bound/Running in the job's pod map) are observed; at session open also QueueFairShare of the root queues (the exported view on Request; skipped, fair-share-skipped count, when a pending gpu-memory pod's devices*memory/100 is not exact in float64); non-trivial = a direct case with at least one refusing gate, or a sequence with both an admitted and a refused job; distinct by full input. " +
-		"ACTION stream (n/10 sessions after a corpus of 16; quick: 316 sessions + ~1100 gate probes): real sessions with EVERY plugin of the default tiers opened on real NodeInfo / PodGroupInfo / QueueInfo objects (1-3 nodes of 2-8 GPUs, GPU memory 100 / 8000 / 40000 MiB; queue trees of depth 1-3: leaf at top level, leaf under a department, leaf under a mid-level queue under a department, sibling or cousin leaves; about 30/40/30%) on which the REAL actions run: allocate, then preempt / reclaim / consolidation (the scheduler's order or another). Jobs are gangs. The nodes are (nearly) full of running whole-GPU jobs: victims of priority 50 in the pending job's own queue (family preempt, 3/8), in a sibling / cousin queue that runs over its deserved quota (reclaim, 2/8), spread so that no node has room for the job's pods although the cluster has (consolidation, 1/8), or drawn at random (mixed, 2/8); pending jobs of 1-3 pods asking 1-4 WHOLE GPUs per pod, a fraction (0.25/0.5/0.75) on 2-3 devices (now and then 1), mixes of both, 1 in 14 pods a gpu-memory request (single- or multi-device: the known finding, met through the real preempt action too), priority 75, or 110 = non-preemptible in a third of the preempt sessions. The GPU limit of ONE queue of the pending job's chain (leaf, mid level or department) -- and for a non-preemptible job in 2/3 of the cases the deserved quota -- is placed at (held now - what the victims needed for the job to fit free below it) + k, k drawn from 0..N (N = GPUs of the whole job, quarter steps, whole numbers preferred) in 2/3 of the sessions and N or N+1 in the rest: the cap lies below, INSIDE and above the span between 'one more device' and 'all devices of the job'; the other caps of the chain are unlimited or generous. Recorded: every Bind / TaskPipelined / Evict that reaches the cache, in order, with the pod's AcceptedResource at that moment; a Statement.Commit starts at a cache call before which a handler fired or a gate ran; at its first call the plugin's per-queue Allocated and the pods whose status holds resources are observed, and again when each action returns. Per commit the case holds ORelease per Evict and one OAdmit per job placed (mode pipeline-only for the solver actions) carrying the verdict of the REAL capacity_policy.IsJobOverQueueCapacity / IsTaskAllocationOnNodeOverCapacity (what Session.IsJobOverQueueCapacityFn dispatches to) on the usage recomputed from the pods before the placement: snapshot pods in the allocated class minus the evicted plus what was bound / nominated before in this cycle; the allocate action's job-level refusals (seen through the wrapped Session.IsJobOverCapacityFns[0], verdict of the live session) are OAdmit .. AdmNo steps at their place between the commits. counts action-*: commits per action (quick: ~145 preempt, ~27 reclaim, ~16 consolidation, ~25 allocate), jobs placed per action (multi-device jobs: ~120 by preempt, ~19 by reclaim, ~16 by consolidation), victims nominated again elsewhere, action-solver-multi-device-job-refused-by-job-gate-only = solver simulations in which a multi-device job passes every node-level gate and is refused by the job-level gate alone (~80 per quick run: exactly the decisions that go wrong when the job-level gate does not run in pipeline-only mode), action-solver-nomination-without-any-job-gate-call (absent = 0 on the unchanged tree). GATE PROBES (origin action-probe): at the first refusing and first accepting call per action and job (<= 5 per session) of the wrapped job-level gate -- allocate action and solver simulations alike, i.e. also in the simulated state after a scenario's evictions -- the three real gates of the live session are evaluated and the usage is recomputed from the pods as they are at that moment; each is a direct case (OProbe on queues with that usage). Not generated in the action stream: DRA claims, MIG, running fraction pods. non-trivial (action): a session with at least one solver commit, keyed by family / queues / nodes / commits per action / nominations whose job-level verdict is a refusal; a probe keyed by action and verdicts"
+		"ACTION stream (n/10 sessions after a corpus of 16; quick: 316 sessions + ~1100 gate probes): real sessions with EVERY plugin of the default tiers opened on real NodeInfo / PodGroupInfo / QueueInfo objects (1-3 nodes of 2-8 GPUs, GPU memory 100 / 8000 / 40000 MiB; queue trees of depth 1-3: leaf at top level, leaf under a department, leaf under a mid-level queue under a department, sibling or cousin leaves; about 30/40/30%) on which the REAL actions run: allocate, then preempt / reclaim / consolidation (the scheduler's order or another). Jobs are gangs. The nodes are (nearly) full of running whole-GPU jobs: victims of priority 50 in the pending job's own queue (family preempt, 3/8), in a sibling / cousin queue that runs over its deserved quota (reclaim, 2/8), spread so that no node has room for the job's pods although the cluster has (consolidation, 1/8), or drawn at random (mixed, 2/8); pending jobs of 1-3 pods asking 1-4 WHOLE GPUs per pod, a fraction (0.25/0.5/0.75) on 2-3 devices (now and then 1), mixes of both, 1 in 14 pods a gpu-memory request (single- or multi-device: the known finding, met through the real preempt action too), priority 75, or 110 = non-preemptible in a third of the preempt sessions. The GPU limit of ONE queue of the pending job's chain (leaf, mid level or department) -- and for a non-preemptible job in 2/3 of the cases the deserved quota -- is placed at (held now - what the victims needed for the job to fit free below it) + k, k drawn from 0..N (N = GPUs of the whole job, quarter steps, whole numbers preferred) in 2/3 of the sessions and N or N+1 in the rest: the cap lies below, INSIDE and above the span between 'one more device' and 'all devices of the job'; the other caps of the chain are unlimited or generous. Recorded: every Bind / TaskPipelined / Evict that reaches the cache, in order, with the pod's AcceptedResource at that moment; a Statement.Commit starts at a cache call before which a handler fired or a gate ran; at its first call the plugin's per-queue Allocated and the pods whose status holds resources are observed, and again when each action returns. Per commit the case holds ORelease per Evict and one OAdmit per job placed (mode pipeline-only for the solver actions) carrying the verdict of the REAL capacity_policy.IsJobOverQueueCapacity / IsTaskAllocationOnNodeOverCapacity (what Session.IsJobOverQueueCapacityFn dispatches to) on the usage recomputed from the pods before the placement: snapshot pods in the allocated class minus the evicted plus what was bound / nominated before in this cycle; the allocate action's job-level refusals (seen through the wrapped Session.IsJobOverCapacityFns[0], verdict of the live session) are OAdmit .. AdmNo steps at their place between the commits. counts action-*: commits per action (quick: ~145 preempt, ~27 reclaim, ~16 consolidation, ~25 allocate), jobs placed per action (multi-device jobs: ~120 by preempt, ~19 by reclaim, ~16 by consolidation), victims nominated again elsewhere, action-solver-multi-device-job-refused-by-job-gate-only = solver simulations in which a multi-device job passes every node-level gate and is refused by the job-level gate alone (~80 per quick run: exactly the decisions that go wrong when the job-level gate does not run in pipeline-only mode), action-solver-nomination-without-any-job-gate-call (absent = 0 on the unchanged tree). GATE PROBES (origin action-probe): at the first refusing and first accepting call per action and job (<= 5 per session) of the wrapped job-level gate -- allocate action and solver simulations alike, i.e. also in the simulated state after a scenario's evictions -- the three real gates of the live session are evaluated and the usage is recomputed from the pods as they are at that moment; each is a direct case (OProbe on queues with that usage). Not generated in the action stream: DRA claims, MIG, running fraction pods. non-trivial (action): a session with at least one solver commit, keyed by family / queues / nodes / commits per action / nominations whose job-level verdict is a refusal; a probe keyed by action and verdicts. " +
+		"MIXED GPU MODELS (hetero.go; after the other action sessions: 13 fixed worlds, then n/15 generated sessions, quick: 200): clusters of 2-3 nodes (2-4 GPUs each) of 2-3 GPU models drawn from {500/100, 300/100, 400/100, 200/100, 400/200/100, 800/200, 40960/16384 and 81920/40960/16384 by label (floored to 40900/16300/81900 by the node), 40000/8000} MiB, in a third of the two-model clusters a second node of one model; in a quarter of the clusters the nodes of the biggest or second model carry a NoSchedule taint; queue tree of depth 1-2 (leaves a, b at top level or under department d); GPUs busy with running 1-GPU pods of queue b (the first = biggest node busy in 2/3 of the clusters, the others in 1/3: bin packing then ranks the nodes in varying orders, the big model first more often than not), in a quarter of the clusters a running 1-GPU pod of queue a (priority 50 or 110); 3-8 pending one-pod jobs (7/8 in queue a, priority 50/50/75/110/110, i.e. 2/5 non-preemptible): 70% gpu-memory requests on a single device asking 25/50/50/75/75/100 hundredths of a GPU of one model (3/4: the smallest model), 15% fractions 0.25/0.5/0.75, 15% one whole GPU; a gpu-memory pod may land only on nodes where its share is 0.25/0.5/0.75/1 (exact in float64): when that is every node it is left free half of the time, otherwise (and else) it is pinned to the nodes of its target model (2/3) or to a random non-empty subset of the exact nodes (1/3), by not tolerating the taint (when the allowed nodes are exactly the untainted ones, 2/3), by a node selector on the verif/gpu-model label (when they are exactly one model's nodes, 1/2) or on the node-name label (single node, 1/3), else by required node affinity (In on the node-name label); a third of the fraction / whole pods is pinned to one node; caps: at one level of a's chain the GPU limit (1/2 of the clusters), the deserved quota (1/3) or both at possibly different levels (1/6) = what the level holds + 1 or 2 (1 in 6: + 0.5), lowered below what a's pending pods ask in total in 2/3 of the cases where it would not bind; actions: allocate (2/3) or allocate, consolidation, reclaim, preempt (1/3). Fixed worlds: the world of seeded/C08-4's README (big = 2 GPUs x 500 with one GPU busy, small = 2 x 100, queue0 limit 1, two pods pinned to small; 75 units = 0.75 / 0.15 GPU instead of the README's 60 = 0.60 / 0.12, because 0.75 is exact in float64) with the pin as node affinity, node selector and taint, with 300/100 and 400/100 (half-GPU pods, three of them), each also with non-preemptible jobs against the deserved quota; the limit on the department over three models; an unpinned control; the 40960/16384 labels through all four actions. counts action-attempt-*: per placed pod how many candidates the attempt passed over (quick: ~300 pods after one, ~80 after two), how many of those were of another GPU model and with which live verdict; action-placed-gpu-memory-pod[-on-bigger-gpu-model]; action-placed-on-node-without-own-gate-call (absent = 0 on the unchanged tree: the pod went to a node for which the session's node-level gate was not the last one called for it)"
 	return out.Flush()
 }
